@@ -669,7 +669,8 @@ const TRAILING: &[&str] = &[
     "UPDATE t SET (a, b,) = 1", "UPDATE t SET (a,) = 1", "UPDATE t SET (a, b,) = 1, c = 2,", "UPDATE t SET (,) = 1", "UPDATE t SET a = 1 RETURNING a, b,", "UPDATE t SET a = 1 RETURNING a, ; SELECT 1", "UPDATE t SET a = 1 FROM u, WHERE b", "UPDATE t SET a = 1, from",
     "UPDATE t SET a = 1, where", "UPDATE t SET a = 1, returning", "UPDATE t SET a = 1, set", "UPDATE t SET a = 1, limit", "UPDATE t SET a = 1 WHERE a IN (1, 2,)", "UPDATE t JOIN u USING (a, b,) SET a = 1", "CREATE TABLE t (a INT, b TEXT,)", "CREATE TABLE t (a INT,, b INT)",
     "CREATE TABLE t (a INT, )", "CREATE TABLE t (a INT NOT NULL, b TEXT DEFAULT 'x',)", "CREATE TABLE t (a INT, b INT,) ;", "CREATE TABLE t (a INT,", "CREATE TABLE t (a INT, b", "CREATE TABLE t (a INT REFERENCES u (a,))", "CREATE TABLE t (a INT REFERENCES u (a, b,), c INT,)",
-    "CREATE TABLE t (a DECIMAL(10,2,))", "CREATE TABLE t (a DECIMAL(10,))", "CREATE TABLE t (a foo(1, 'a',))", "CREATE TABLE t (a ENUM('a','b',))", "CREATE TABLE t (a INT DEFAULT 1,)", "CREATE TABLE t (a INT CHECK (a IN (1, 2,)),)", "CREATE TABLE t (a INT, PRIMARY KEY (a),)",
+    "CREATE TABLE t (a DECIMAL(10,2,))", "CREATE TABLE t (a DECIMAL(10,))", "CREATE TABLE t (a foo(1, 'a',))", "CREATE TABLE t (a ENUM('a','b',))", "CREATE TABLE t (a ENUM('a',), b SET('x','y',))", "CREATE TABLE t (a SET('a',) NOT NULL, b INT,)", "CREATE TABLE t (a ENUM('a' 'b'))", "CREATE TABLE t (a ENUM('a',,))", "CREATE TABLE t (a ENUM('a', from))",
+    "CREATE TABLE t (a ENUM(,))", "CREATE TABLE t (a ENUM('a',", "CREATE TABLE t (a ENUM('a', b))", "CREATE TABLE t (a SET('a','b' 'c'), b INT)", "CREATE TABLE t (a INT DEFAULT 1,)", "CREATE TABLE t (a INT CHECK (a IN (1, 2,)),)", "CREATE TABLE t (a INT, PRIMARY KEY (a),)",
     "CREATE TABLE t (a INT, PRIMARY KEY (a,))", "DELETE FROM t, u, WHERE a", "DELETE FROM t, u,", "DELETE FROM t, ;", "DELETE FROM t, USING a", "DELETE FROM t USING a, WHERE b", "DELETE FROM t USING a, b,", "DELETE FROM t USING a, RETURNING *", "DELETE FROM t ORDER BY a, LIMIT 1",
     "DELETE FROM t ORDER BY a,", "DELETE FROM t ORDER BY a DESC, b, ;", "DELETE FROM t RETURNING a, b, ORDER BY c", "DELETE FROM t RETURNING a, LIMIT 1", "DELETE FROM t RETURNING *,", "DELETE a, b, FROM t", "DELETE a, FROM t", "DELETE FROM t, using", "DELETE FROM t, where",
     "DELETE FROM t, limit", "DELETE FROM t, order", "DELETE FROM t, returning", "DELETE t, WHERE a", "DROP TABLE a, b,", "DROP TABLE a,", "DROP TABLE a, ;", "DROP TABLE a, b, CASCADE", "DROP TABLE a, RESTRICT", "DROP TABLE a, PURGE", "DROP TABLE IF EXISTS a, ; DROP TABLE b,",
